@@ -127,7 +127,7 @@ def patches(mesh, dirvec, frac=0.25):
 
 @st.composite
 def elastic_cases(draw, dim):
-    r = draw(gm.recipes2d(affine_ok=False) if dim == 2 else gm.recipes3d(affine_ok=False))
+    r = draw(gm.recipes2d(affine_ok=False, bend_ok=True) if dim == 2 else gm.recipes3d(affine_ok=False, bend_ok=True))
     law = draw(gmod.elastic_specs(dim))
     iso = draw(isometries(dim))
     vec = lambda lo, hi, den: [draw(st.integers(lo, hi)) / den for _ in range(dim)]  # noqa
@@ -212,7 +212,7 @@ def check_elastic(case, rec):
 @st.composite
 def thermal_cases(draw):
     dim = draw(st.sampled_from([2, 2, 3]))
-    r = draw(gm.recipes2d(affine_ok=False) if dim == 2 else gm.recipes3d(affine_ok=False))
+    r = draw(gm.recipes2d(affine_ok=False, bend_ok=True) if dim == 2 else gm.recipes3d(affine_ok=False, bend_ok=True))
     return dict(recipe=r, iso=draw(isometries(dim)), dirang=draw(st.integers(0, 11)), k=draw(st.integers(1, 20)) / 4.0,
                 thickness=draw(st.sampled_from([1.0, 0.5])), Td=draw(st.integers(-4, 4)) / 2.0, src=draw(st.integers(-4, 4)) / 2.0,
                 flux=draw(st.integers(-4, 4)) / 2.0)
